@@ -47,6 +47,7 @@ func Initialize(dirStructureRoot *utils.DirStructure) error {
 				return fmt.Errorf("could not load database registry (%s): %w", filepath.Join(rootStructure.Path, registryFileName), err)
 			}
 		}
+		registryReady.Set()
 
 		return nil
 	}
